@@ -154,7 +154,17 @@ func (o *Oracle) SignWithCert(el *etree.Element, kp *fx.KeyPair, method string, 
 	return o.sign(el, kp, method, certDER, true)
 }
 
+// SignWithCerts signs with kp's key and lists several certificates in KeyInfo, in the given order (not logged as genuine
+// beyond the key name, like SignWithCert).
+func (o *Oracle) SignWithCerts(el *etree.Element, kp *fx.KeyPair, method string, certDERs ...[]byte) (*etree.Element, error) {
+	return o.signChain(el, kp, method, certDERs, true)
+}
+
 func (o *Oracle) sign(el *etree.Element, kp *fx.KeyPair, method string, certDER []byte, log bool) (*etree.Element, error) {
+	return o.signChain(el, kp, method, [][]byte{certDER}, log)
+}
+
+func (o *Oracle) signChain(el *etree.Element, kp *fx.KeyPair, method string, certDERs [][]byte, log bool) (*etree.Element, error) {
 	if method == "" {
 		if kp.IsRSA() {
 			method = RSASHA256
@@ -162,7 +172,7 @@ func (o *Oracle) sign(el *etree.Element, kp *fx.KeyPair, method string, certDER 
 			method = ECSHA256
 		}
 	}
-	ctx, err := dsig.NewSigningContext(kp.Key, [][]byte{certDER})
+	ctx, err := dsig.NewSigningContext(kp.Key, certDERs)
 	if err != nil {
 		return nil, err
 	}
